@@ -35,6 +35,10 @@ pub struct Case {
     pub ops: Vec<Op>,
     /// keepalive clause: idle for this long on a loss-free link afterwards (0 = skip)
     pub idle_s: u32,
+    /// undecodable datagrams (line noise, strangers' traffic) reach the sockets: 0 never, 1 before every server step,
+    /// 2 before every client step, 3 both - each ahead of whatever genuine frames arrived in that interval
+    #[serde(default)]
+    pub noise: u8,
 }
 
 pub struct C10;
@@ -68,9 +72,9 @@ impl Check for C10 {
             (prop_oneof![4 => Just(0u8), 3 => 1u8..4, 2 => 4u8..11, 1 => Just(12u8)], prop_oneof![5 => Just(0u8), 3 => 1u8..4, 1 => 4u8..11, 1 => Just(12u8)]),
             prop_oneof![Just(1_000u32), Just(5_000u32), Just(16_000u32), Just(30_000u32), Just(100_000u32), Just(400_000u32)],
             proptest::collection::vec(op, 1..tier.pick(50, 150)),
-            prop_oneof![3 => Just(0u32), 2 => 30u32..600, 1 => 600u32..tier.pick(3600, 7200)],
+            (prop_oneof![3 => Just(0u32), 2 => 30u32..600, 1 => 600u32..tier.pick(3600, 7200)], prop_oneof![3 => Just(0u8), 1 => 1u8..4]),
         )
-            .prop_map(|((seed, server_timeout_ms, client_timeout_ms, server_keepalive, client_keepalive), (l0, l1), (syn_lost, synack_lost), period_us, ops, idle_s)| Case { seed, server_timeout_ms, client_timeout_ms, server_keepalive, client_keepalive, latency_us: [l0, l1], syn_lost, synack_lost, period_us, ops, idle_s })
+            .prop_map(|((seed, server_timeout_ms, client_timeout_ms, server_keepalive, client_keepalive), (l0, l1), (syn_lost, synack_lost), period_us, ops, (idle_s, noise))| Case { seed, server_timeout_ms, client_timeout_ms, server_keepalive, client_keepalive, latency_us: [l0, l1], syn_lost, synack_lost, period_us, ops, idle_s, noise })
             .boxed()
     }
 
@@ -83,7 +87,7 @@ impl Check for C10 {
     }
 
     fn rule(&self) -> String {
-        "case = World with one real Client and Server: generated active_timeout_ms (1..60 s) and keepalive settings on both sides, link latencies 0..300 ms, the first 0..12 SYNs and / or SYN-ACKs lost, a base step cadence of 1 ms..400 ms, then a generated sequence of ticks (0..8 s apart, either endpoint sometimes not stepping), runs of regular stepping, sends in both directions, and blackouts of 0.1..70 s in either or both directions (placing last-frame arrivals and deadlines at arbitrary offsets from the steps), optionally followed by an idle period of up to an hour (two in thorough) on a loss-free link. Oracle per endpoint, with e the time it became active and p the time of the step in which it last processed a valid data / sync / ack frame from its peer: (a) a Timeout on an active connection at step time t requires t - max(e, p) >= active_timeout_ms; (b) the first step with t - max(e, p) >= active_timeout_ms must report it; (c) with keepalive on, on loss-free links and 3*max(interval, 2 s) + 4*(latency + largest step gap) <= active_timeout_ms, no timeout during the idle period; (d) a client whose handshake never completes reports Error(Timeout) no earlier than 22 000 ms after connect() and no later than that plus 12 step gaps, having sent exactly 11 SYNs; the server sends at most 1 + 10 SYN-ACKs per pending entry and reports its handshake timeout no earlier than 22 000 ms after the SYN; (e) a disconnect attempt (disconnect() / disconnect_now() from either side at a generated moment) sends at most 1 + 10 Disconnect frames, at least 2 s apart, and gives up with Error(Timeout) no earlier than 22 000 ms after the first. Non-trivial = a deadline fell within two step gaps of a frame arrival, or the handshake needed at least one retry. Distinct = distinct serialised case.".into()
+        "case = World with one real Client and Server: generated active_timeout_ms (1..60 s) and keepalive settings on both sides, link latencies 0..300 ms, the first 0..12 SYNs and / or SYN-ACKs lost, a base step cadence of 1 ms..400 ms, then a generated sequence of ticks (0..8 s apart, either endpoint sometimes not stepping), runs of regular stepping, sends in both directions, and blackouts of 0.1..70 s in either or both directions (placing last-frame arrivals and deadlines at arbitrary offsets from the steps), optionally with an undecodable datagram first in line before every server and / or client step, optionally followed by an idle period of up to an hour (two in thorough) on a loss-free link. Oracle per endpoint, with e the time it became active and p the time of the step in which it last processed a valid data / sync / ack frame from its peer: (a) a Timeout on an active connection at step time t requires t - max(e, p) >= active_timeout_ms; (b) the first step with t - max(e, p) >= active_timeout_ms must report it; (c) with keepalive on, on loss-free links and 3*max(interval, 2 s) + 4*(latency + largest step gap) <= active_timeout_ms, no timeout during the idle period; (d) a client whose handshake never completes reports Error(Timeout) no earlier than 22 000 ms after connect() and no later than that plus 12 step gaps, having sent exactly 11 SYNs; the server sends at most 1 + 10 SYN-ACKs per pending entry and reports its handshake timeout no earlier than 22 000 ms after the SYN; (e) a disconnect attempt (disconnect() / disconnect_now() from either side at a generated moment) sends at most 1 + 10 Disconnect frames, at least 2 s apart, and gives up with Error(Timeout) no earlier than 22 000 ms after the first. Non-trivial = a deadline fell within two step gaps of a frame arrival, or the handshake needed at least one retry. Distinct = distinct serialised case.".into()
     }
 
     fn assumptions(&self) -> Vec<String> {
@@ -117,8 +121,17 @@ impl Check for C10 {
         let mut blackouts: Vec<(u64, u64)> = Vec::new();
         let mut client_cancelled = false;
 
+        let noise = c.noise;
         let mut tick = |w: &mut World, dt: u64, server: bool, client: bool, steps_c: &mut Vec<(u64, u64)>, steps_s: &mut Vec<(u64, u64)>| {
             w.advance(dt);
+            // an undecodable datagram from a stranger is first in line in this interval (delivery order = order of
+            // arrival time, then of insertion; it is stamped one microsecond into the past)
+            if server && noise & 1 != 0 {
+                w.send_raw_front(raw_addr(900), w.server_addr, &[0x55]);
+            }
+            if client && noise & 2 != 0 {
+                w.send_raw_front(w.server_addr, caddr, &[0x00, 0x01, 0x02]);
+            }
             if server {
                 w.step_server();
                 steps_s.push((w.ev, w.now_us));
